@@ -10,7 +10,8 @@
                   must match, allowed methods accumulated in that order);
    build_app    = add_route / add_static / add_subapp (with _add_prefix_to_resources) / add_domain / freeze.
    `p` is request.rel_url.path_safe: it starts with '/' (origin-form) and yarl's path_safe decoder
-   leaves it unchanged (path_safe_dec p = p; sampled law, harness suite quoting_laws).
+   leaves it unchanged (path_safe_dec p = p: holds for every well-formed target; a malformed escape such
+   as "%2%30" makes yarl return a string that decodes further, see C14_index_eq_rule_refuted).
    op_clean: the prefix given to add_subapp contains no '%' and no '{' (it reaches the sub-application's
    resources as typed, so only then is it the same text in the formatter and in the decoded path). *)
 From AV Require Import Lib.Base Lib.Utf8 Generated.DispatchGen Model.Dispatch
@@ -20,7 +21,7 @@ Open Scope N_scope.
 
 (* ---------------------------------------------------------------- handler and match_info = the rule *)
 
-(* PARTIAL only in the hypothesis op_clean (add_subapp prefixes without '%' and '{'; missing: prefixes
+(* PARTIAL in `path_safe_dec p = p` (see C14_index_eq_rule_refuted) and in op_clean (add_subapp prefixes without '%' and '{'; missing: prefixes
    given already percent-encoded, which reach the sub-application's resources undecoded).  Otherwise
    for EVERY operation list that builds (any nesting of sub-apps and domain sub-apps, any registration
    order), every path_safe path, method and Host: the index walk chooses the handler, match_info and
@@ -32,12 +33,23 @@ Theorem C14_dispatch_follows_rule_partial : forall ops rt host p m,
 Proof. exact built_dispatch_follows_rule. Qed.
 Print Assumptions C14_dispatch_follows_rule_partial.
 
-(* its two halves: (1) FULL: index = rule for every table whose index is consistent ... *)
-Theorem C14_index_eq_rule : forall rt host p m,
+(* The statement for ALL paths is REFUTED on the tree as of 70456c5: a plain resource is compared as
+   written but indexed under the decoded key, so a path that is not a fixed point of path_safe (yarl
+   returns "/a%20b" for the malformed target "/a%2%30b") is matched by the rule and missed by the index
+   (open finding C14-plain-key-decoded; repair proposed in DESIGN-built/C14-repair-C14-plain-key-decoded.diff). *)
+Theorem C14_index_eq_rule_refuted :
+  exists rt, build_app [ORoute s_POST s_a20b 1] = BOk rt /\ path_safe_dec s_a20b <> s_a20b /\
+    resolve_ix rt None s_a20b s_POST = NotFound /\ resolve_rule rt None s_a20b s_POST = Found 1 [].
+Proof. exact index_rule_nonfixpoint_witness. Qed.
+Print Assumptions C14_index_eq_rule_refuted.
+
+(* its two halves: (1) PARTIAL in `path_safe_dec p = p` only (true of every path_safe that yarl derives
+   from a well-formed target): index = rule for every table whose index is consistent ... *)
+Theorem C14_index_eq_rule_partial : forall rt host p m,
   router_ok rt -> starts_with [SLASH] p = true -> path_safe_dec p = p ->
   resolve_ix rt host p m = resolve_rule rt host p m.
 Proof. exact index_eq_rule. Qed.
-Print Assumptions C14_index_eq_rule.
+Print Assumptions C14_index_eq_rule_partial.
 
 (* ... (2) PARTIAL in op_clean as above: construction, including unindex / add_prefix / index of every indexed resource of a mounted
    sub-application (recursively; matched sub-apps are only prefixed), keeps every index consistent:
@@ -81,7 +93,7 @@ Print Assumptions C14_example_hypotheses.
 (* Since 2ef822d, through any nesting of sub-applications: a 404 is returned only if no resource
    matches the path — i.e. it does not depend on the method — and a 405 lists exactly the methods for
    which the same path is served.  FULL for every consistent well-formed table
-   (C14_404_405_sweep_tables below); for operation lists PARTIAL in op_clean only. *)
+   (C14_404_405_sweep_tables_partial below); for operation lists PARTIAL in op_clean only. *)
 Theorem C14_404_405_sweep_partial : forall ops rt host p,
   Forall op_clean ops -> build_app ops = BOk rt ->
   starts_with [SLASH] p = true -> path_safe_dec p = p ->
@@ -91,12 +103,13 @@ Theorem C14_404_405_sweep_partial : forall ops rt host p,
 Proof. exact built_sweep. Qed.
 Print Assumptions C14_404_405_sweep_partial.
 
-(* FULL: every consistent, well-formed table (every leaf has a route, static resources list no wildcard) *)
-Theorem C14_404_405_sweep_tables : forall rt host p,
+(* every consistent, well-formed table (every leaf has a route, static resources list no wildcard); PARTIAL in
+   `path_safe_dec p = p` only *)
+Theorem C14_404_405_sweep_tables_partial : forall rt host p,
   router_ok rt -> wf_router rt -> starts_with [SLASH] p = true -> path_safe_dec p = p ->
   sweep_ok (fun m => resolve_ix rt host p m).
 Proof. exact ix_sweep. Qed.
-Print Assumptions C14_404_405_sweep_tables.
+Print Assumptions C14_404_405_sweep_tables_partial.
 
 Theorem C14_built_tables_well_formed : forall ops rt, build_app ops = BOk rt -> wf_router rt.
 Proof. exact build_app_wf. Qed.
